@@ -300,8 +300,8 @@ func (f *File) writeOffset() int64 {
 
 func (f *File) Write(b []byte) (int, error) {
 	before("write", f.File.Name())
-	if BeforeWrite != nil {
-		BeforeWrite(f.File.Name(), f.writeOffset(), b)
+	if bw := BeforeWrite; bw != nil { // local copy: a harness may clear the hook while code under test still writes
+		bw(f.File.Name(), f.writeOffset(), b)
 	}
 	if err := fail("write", f.File.Name()); err != nil {
 		return 0, err
@@ -313,8 +313,8 @@ func (f *File) WriteString(s string) (int, error) { return f.Write([]byte(s)) }
 
 func (f *File) WriteAt(b []byte, off int64) (int, error) {
 	before("write-at", f.File.Name())
-	if BeforeWrite != nil {
-		BeforeWrite(f.File.Name(), off, b)
+	if bw := BeforeWrite; bw != nil {
+		bw(f.File.Name(), off, b)
 	}
 	if err := fail("write-at", f.File.Name()); err != nil {
 		return 0, err
